@@ -14,9 +14,13 @@ import (
 	"verifmc/engine/ev"
 	"verifmc/props/c27"
 	"verifmc/props/c28"
+	"verifmc/props/c29coop"
 )
 
-var outcomeFns = map[string]func(s *coop.Sched) string{"C27": c27.Outcome, "C28": c28.Outcome}
+var outcomeFns = map[string]func(s *coop.Sched) string{"C27": c27.Outcome, "C28": c28.Outcome, "C29": c29coop.Outcome}
+
+// package whose synchronisation operations are the scheduling points (default protocol/lavasession)
+var scheduledPkg = map[string]string{"C29": "protocol/rpcprovider/rewardserver"}
 
 // per-property limits: executions per (harness, bound, shard) and the thorough bounds (default 400000 / 20000000, 0..4)
 type limits struct {
@@ -67,8 +71,12 @@ func main() {
 		if waitSeq != nil {
 			waitSeq()
 		}
-		run.Set("bound", fmt.Sprintf("all schedules with preemption bounds %v at lock/atomic/sleep points of protocol/lavasession; harnesses %v", bounds, coopdrv.Names(id)))
-		run.Assume("sequentially consistent interleavings at synchronisation operations of the rewritten package (sync, sync/atomic, time.Sleep); code between two points runs atomically; TRY_LOCK_ATTEMPTS reduced 30 -> 2 (uniform retry loop); RWMutex without writer preference (superset of Go's behaviours)")
+		pkg, extra := "protocol/lavasession", "; TRY_LOCK_ATTEMPTS reduced 30 -> 2 (uniform retry loop)"
+		if p, ok := scheduledPkg[id]; ok {
+			pkg, extra = p, ""
+		}
+		run.Set("bound", fmt.Sprintf("all schedules with preemption bounds %v at lock/atomic/sleep points of %s; harnesses %v", bounds, pkg, coopdrv.Names(id)))
+		run.Assume("sequentially consistent interleavings at synchronisation operations of the rewritten package (sync, sync/atomic, time.Sleep); code between two points runs atomically" + extra + "; RWMutex without writer preference (superset of Go's behaviours)")
 		os.Exit(run.Finish())
 	case "replay":
 		b, err := os.ReadFile(os.Args[2])
